@@ -120,6 +120,17 @@ class Reductions(Contract):
         for fm in fms[:2]:
             for fn in ('sum', 'max'):
                 yield dict(fn=fn, fmt=list(fm), shape=[2], axis=None, route='np', with_out=True)
+        # 2-d operands in Fortran (column-major / transposed) memory order: results are positional, not memory-order dependent
+        for fm in (fms[:1] if tier == 'quick' else fms[:3]):
+            for shape in ((2, 2), (2, 3)):
+                for fn in ('sum', 'cumsum', 'prod', 'cumprod', 'max', 'min', 'sort', 'transpose', 'clip', 'trace', 'diagonal'):
+                    if fn in ('prod', 'cumprod') and nelem(shape) * fm[1] > 53:
+                        continue
+                    if fn in ('trace', 'diagonal') and shape[0] != shape[1]:
+                        continue
+                    for axis in (([None, 0, 1] if fn in ('sum', 'cumsum', 'prod', 'cumprod', 'max', 'min') else ([-1] if fn == 'sort' else [None]))):
+                        for route in ('np', 'method'):
+                            yield dict(fn=fn, fmt=list(fm), shape=list(shape), axis=axis, route=route, forder=True)
         # a bound that is exactly zero (and integer bounds) on either side
         for fm in fms[:3]:
             for bounds in ([0, 1.5], [-0.75, 0], [0, 0], [-1, 1]):
@@ -143,7 +154,8 @@ class Reductions(Contract):
 
     def run(self, cfg, P, inp):
         s, n, f = cfg['fmt']
-        x = make_fxp(P, s, n, f, codes=inp['c'], shape=tuple(cfg['shape']), vdtype=int if cfg.get('vint') else float, status={'inaccuracy': inp['ix']})
+        x = make_fxp(P, s, n, f, codes=inp['c'], shape=tuple(cfg['shape']), vdtype=int if cfg.get('vint') else float, status={'inaccuracy': inp['ix']},
+                     forder=bool(cfg.get('forder')))
         b = dict(x.__dict__); v0 = list(elems(x.val))
         fn, axis, route = cfg['fn'], cfg['axis'], cfg['route']
         np = P.np
